@@ -1105,7 +1105,7 @@ func init() {
 	register(&property{
 		Meta: propertyMeta{
 			ID:          "C17",
-			Explanation: "(C17-TAINT) backward provenance from every file-system sink in the module (os.Open/Create/Stat/ReadFile/..., http.ServeFile, http.Dir conversion, FileSystem.Open) through string operations, calls and parameters (all call sites): no request-derived text (Context.Param/Query/Header/..., Req.URL.*, Params) reaches a sink; a positive fixture handler doing os.Open(filepath.Join(root, c.Param(\"file\"))) is analysed in the same run through an overlay and must be flagged. (C17-ROOT) StaticDir/StaticFS/StaticFiles build http.FileServer once at registration from their own root parameter; the per-request closure only calls ServeHTTP of that captured handler with c.Resp/c.Req; StaticFile serves exactly the configured file. (C17-EXT) the extension list of StaticFiles is compiled into the route pattern {file:.+\\.(?:exts)}. Confinement inside net/http (path cleaning, '..' rejection of http.FileServer/http.Dir/ServeFile) is trusted.",
+			Explanation: "(C17-TAINT) backward provenance from every file-system sink in the module (os.Open/Create/Stat/ReadFile/..., http.ServeFile, http.Dir conversion, FileSystem.Open) through string operations, calls and parameters (all call sites): no request-derived text (Context.Param/Query/Header/..., Req.URL.*, Params) reaches a sink; a positive fixture handler doing os.Open(filepath.Join(root, c.Param(\"file\"))) is analysed in the same run through an overlay and must be flagged. (C17-ROOT) StaticDir/StaticFS/StaticFiles build http.FileServer once at registration from their own root parameter; the per-request closure only calls ServeHTTP of that captured handler with c.Resp/c.Req; StaticFile serves exactly the configured file. (C17-EXT) the extension list of StaticFiles is compiled into the route pattern {file:.+\\.(?:exts)}. Confinement inside net/http (path cleaning, '..' rejection of http.FileServer/http.Dir/ServeFile) is trusted. Where the pattern carries the extension filter, the handler stores Param(\"file\") into Req.URL.Path before serving: the filter applies to the file that is served, also under InterceptAll or a trimmed trailing slash.",
 			NotDecided:  []string{"what http.FileServer, http.Dir.Open, http.ServeFile do with hostile paths (trusted standard library)", "symlinks inside the root"},
 			Assumptions: []string{"net/http's FileServer confines requests to its root"},
 		},
